@@ -50,6 +50,9 @@ pub struct ManiaGradualDifficulty {
     pub(crate) idx: usize,
     pub(crate) difficulty: Difficulty,
     objects_is_circle: Box<[bool]>,
+    /// Amount of combo each hit object contributes, i.e. the same values
+    /// that the non-gradual calculation sums up.
+    objects_combo: Box<[u32]>,
     is_convert: bool,
     strain: Strain,
     diff_objects: Box<[ManiaDifficultyObject]>,
@@ -84,13 +87,24 @@ impl ManiaGradualDifficulty {
         let clock_rate = difficulty.get_clock_rate();
         let mut params = ObjectParams::new(&map);
 
-        let mania_objects = map
+        let mut objects_combo = Vec::with_capacity(map.hit_objects.len());
+
+        let mania_objects: Vec<_> = map
             .hit_objects
             .iter()
-            .map(|h| ManiaObject::new(h, total_columns, &mut params))
-            .take(take);
+            .map(|h| {
+                let prev_combo = params.max_combo();
+                let hit_object = ManiaObject::new(h, total_columns, &mut params);
+                objects_combo.push(params.max_combo() - prev_combo);
 
-        let diff_objects = DifficultyValues::create_difficulty_objects(clock_rate, mania_objects);
+                hit_object
+            })
+            .collect();
+
+        let diff_objects = DifficultyValues::create_difficulty_objects(
+            clock_rate,
+            mania_objects.into_iter().take(take),
+        );
 
         let strain = Strain::new(total_columns as usize);
 
@@ -99,21 +113,15 @@ impl ManiaGradualDifficulty {
         let objects_is_circle: Box<[_]> =
             map.hit_objects.iter().map(HitObject::is_circle).collect();
 
-        if let Some(h) = map.hit_objects.first() {
-            let hit_object = ManiaObject::new(h, total_columns, &mut params);
-
-            increment_combo_raw(
-                objects_is_circle[0],
-                hit_object.start_time,
-                hit_object.end_time,
-                &mut note_state,
-            );
+        if let Some(combo) = objects_combo.first() {
+            increment_combo(objects_is_circle[0], *combo, &mut note_state);
         }
 
         Ok(Self {
             idx: 0,
             difficulty,
             objects_is_circle,
+            objects_combo: objects_combo.into_boxed_slice(),
             is_convert: map.is_convert,
             strain,
             diff_objects,
@@ -135,12 +143,8 @@ impl Iterator for ManiaGradualDifficulty {
             self.strain.process(curr, &self.diff_objects);
 
             let is_circle = self.objects_is_circle[self.idx];
-            increment_combo(
-                is_circle,
-                curr,
-                &mut self.note_state,
-                self.difficulty.get_clock_rate(),
-            );
+            let combo = self.objects_combo[self.idx];
+            increment_combo(is_circle, combo, &mut self.note_state);
         } else if self.objects_is_circle.is_empty() {
             return None;
         }
@@ -166,7 +170,12 @@ impl Iterator for ManiaGradualDifficulty {
         let skip_iter = self
             .diff_objects
             .iter()
-            .zip(self.objects_is_circle.iter().skip(1))
+            .zip(
+                self.objects_is_circle
+                    .iter()
+                    .zip(self.objects_combo.iter())
+                    .skip(1),
+            )
             .skip(self.idx.saturating_sub(1));
 
         let mut take = cmp::min(n, self.len().saturating_sub(1));
@@ -177,10 +186,8 @@ impl Iterator for ManiaGradualDifficulty {
             self.idx += 1;
         }
 
-        let clock_rate = self.difficulty.get_clock_rate();
-
-        for (curr, is_circle) in skip_iter.take(take) {
-            increment_combo(*is_circle, curr, &mut self.note_state, clock_rate);
+        for (curr, (is_circle, combo)) in skip_iter.take(take) {
+            increment_combo(*is_circle, *combo, &mut self.note_state);
             self.strain.process(curr, &self.diff_objects);
             self.idx += 1;
         }
@@ -195,25 +202,10 @@ impl ExactSizeIterator for ManiaGradualDifficulty {
     }
 }
 
-fn increment_combo(
-    is_circle: bool,
-    diff_obj: &ManiaDifficultyObject,
-    state: &mut NoteState,
-    clock_rate: f64,
-) {
-    increment_combo_raw(
-        is_circle,
-        diff_obj.start_time * clock_rate,
-        diff_obj.end_time * clock_rate,
-        state,
-    );
-}
+fn increment_combo(is_circle: bool, combo: u32, state: &mut NoteState) {
+    state.curr_combo += combo;
 
-fn increment_combo_raw(is_circle: bool, start_time: f64, end_time: f64, state: &mut NoteState) {
-    if is_circle {
-        state.curr_combo += 1;
-    } else {
-        state.curr_combo += 1 + ((end_time - start_time) / 100.0) as u32;
+    if !is_circle {
         state.n_hold_notes += 1;
     }
 }
